@@ -47,6 +47,19 @@ class HashV(VSub):
         return hash(self.uid)
 
 
+def _local_vertex_class():
+    class LocalV(VSub):
+        """a vertex class defined inside a function, written the way the library's own documentation shows
+        (`super().__init__(...)`): picklers that go by qualified name cannot import it, so dill pickles the CLASS by value -
+        including the `__class__` cell of the method, which points back at the class"""
+        def __init__(self, *a, **k):
+            super().__init__(*a, **k)
+    return LocalV
+
+
+LocalV = _local_vertex_class()
+
+
 class DSub(DirectedEdge):
     pass
 
@@ -64,6 +77,7 @@ KIND_CLS = {"KVertex": Vertex, "KVertexSub": VSub, "KUniverse": Universe, "KDir"
 CLS_KIND = {v: k for k, v in KIND_CLS.items()}
 CLS_KIND[FalsyV] = "KVertexSub"
 CLS_KIND[HashV] = "KVertexSub"
+CLS_KIND[LocalV] = "KVertexSub"
 # class choice of a generated NV op: plain Vertex, a subclass, a subclass whose instances are FALSY (legal: the library
 # must test `is None`, never truthiness)
 NV_CLASSES = [False, False, False, False, False, True, True, 2, 2, 2]
@@ -195,7 +209,7 @@ class World:
         if t == "NV":
             us = [g(i, U) for i in op[2]]
             ls = [g(i, L) for i in op[3]]
-            cls = HashV if op[1] == 3 else FalsyV if op[1] == 2 else VSub if op[1] else Vertex
+            cls = LocalV if op[1] == 4 else HashV if op[1] == 3 else FalsyV if op[1] == 2 else VSub if op[1] else Vertex
             kw = {}
             if us:
                 kw["universes"] = self._container(us)
